@@ -251,6 +251,70 @@ func streamerRenewals(p *packages.Package) []string {
 	return res
 }
 
+// the reader goroutine of MessageStreamer.Go (the func literal that calls conn.Receive): every
+// delete(pending, id) in it — "guarded" when it sits under `if pending[id] == <snapshot entry>`
+// (only the entry that was pending before the database was told is released), else "unguarded"
+func streamerReaderReleases(p *packages.Package) []string {
+	fd := funcDecl(p, "MessageStreamer", "Go")
+	var res []string
+	if fd == nil {
+		problem("MessageStreamer.Go not found")
+		return res
+	}
+	var reader *ast.FuncLit
+	ast.Inspect(fd.Body, func(n ast.Node) bool {
+		fl, ok := n.(*ast.FuncLit)
+		if !ok || reader != nil {
+			return true
+		}
+		calls := false
+		nested := false
+		ast.Inspect(fl.Body, func(m ast.Node) bool {
+			if c, ok := m.(*ast.CallExpr); ok && exprName(c.Fun) == "conn.Receive" {
+				calls = true
+			}
+			return true
+		})
+		_ = nested
+		if calls {
+			reader = fl
+		}
+		return true
+	})
+	if reader == nil {
+		problem("reader goroutine of MessageStreamer.Go not found")
+		return res
+	}
+	var stack []ast.Node
+	ast.Inspect(reader.Body, func(n ast.Node) bool {
+		if n == nil {
+			stack = stack[:len(stack)-1]
+			return true
+		}
+		stack = append(stack, n)
+		c, ok := n.(*ast.CallExpr)
+		if !ok || exprName(c.Fun) != "delete" || len(c.Args) != 2 || exprName(c.Args[0]) != "pending" {
+			return true
+		}
+		r := "unguarded"
+		for i := len(stack) - 2; i >= 0; i-- {
+			is, ok := stack[i].(*ast.IfStmt)
+			if !ok {
+				continue
+			}
+			if be, ok := is.Cond.(*ast.BinaryExpr); ok && be.Op == token.EQL {
+				if ix, ok := be.X.(*ast.IndexExpr); ok && exprName(ix.X) == "pending" && exprName(ix.Index) == exprName(c.Args[1]) {
+					r = "guarded"
+				}
+			}
+			break
+		}
+		res = append(res, r)
+		return true
+	})
+	return res
+}
+
 // every pruneServiceFor("name", func(params) { return actions.NewX(params) }) registration: (name, constructor)
 func pruneServices(p *packages.Package) []string {
 	var res []string
@@ -631,6 +695,7 @@ func main() {
 	fmt.Fprintf(&out, "/-- in the RETRY loop of GetSubscriptionMessages.execute the awaiter is registered before the query transaction -/\ndef pullRegistersBeforeQuery : Bool := %v\n", regFirst)
 	fmt.Fprintf(&out, "/-- the cases of that loop's select and how each ends -/\ndef pullSelectCases : List String := %s\n", q(selCases))
 	fmt.Fprintf(&out, "/-- every `case <-pubNotify` of MessageStreamer.Go: does it take a new awaiter first -/\ndef streamerRenewals : List String := %s\n", q(streamerRenewals(act)))
+	fmt.Fprintf(&out, "/-- every `delete(pending, id)` of the reader goroutine of MessageStreamer.Go: is it under `if pending[id] == <entry snapshotted before the database call>` -/\ndef streamerReaderReleases : List String := %s\n", q(streamerReaderReleases(act)))
 
 	out.WriteString("\n/-- List handler ↦ literal appended to the project to form the name prefix -/\n")
 	for _, h := range [][3]string{{"publisherServer", "ListTopics", "listTopicsSuffix"}, {"subscriberServer", "ListSubscriptions", "listSubscriptionsSuffix"}, {"subscriberServer", "ListSnapshots", "listSnapshotsSuffix"}} {
